@@ -410,7 +410,7 @@ func runLinz(o Opts) *Result {
 				res.Samples = append(res.Samples, map[string]interface{}{"backend": kind, "slot": slot, "history": hist, "verdict": r})
 			}
 		}
-		if len(res.Violations) >= 5 {
+		if res.full() {
 			break
 		}
 	}
